@@ -124,3 +124,59 @@ func VerifH10p() {
 	verifSameMatrix("C10/distributed-equals-central", got, want, "KF-C10-D16", zombie)
 	sym.Reached("C10/end")
 }
+
+var verifDistRealQueries = []string{`sum(foo)`, `avg(foo)`, `sum by (a) (foo)`, `stdvar(foo)`, `sum(foo) / count(foo)`}
+
+// VerifH10r: distributed vs central for float aggregations whose member order depends on
+// the partitioning, under the exact-real interpretation (equal up to rounding): three
+// series assigned to two remote engines in every way.
+func VerifH10r() {
+	qs := verifDistRealQueries[sym.Choice("query", len(verifDistRealQueries))]
+	start := sym.Int64("start", 0, verifR)
+	step := sym.Int64("step", 1, verifR)
+	lbls := []labels.Labels{
+		stub.Labels("__name__", "foo", "a", "x", "b", "1"),
+		stub.Labels("__name__", "foo", "a", "x", "b", "2"),
+		stub.Labels("__name__", "foo", "a", "y", "b", "1"),
+	}
+	var union []*stub.Series
+	parts := [][]*stub.Series{nil, nil}
+	for k, l := range lbls {
+		s := []stub.Sample{{T: start, V: sym.Float64("v" + stub.Itoa(k))}}
+		union = append(union, stub.NewSeries(l, s))
+		p := sym.Choice("partition."+stub.Itoa(k), 2)
+		parts[p] = append(parts[p], stub.NewSeries(l, s))
+	}
+	sym.SetGOMAXPROCS(2)
+	central := verifEngine(logicalplan.DefaultOptimizers, 300000)
+	want := verifExecRange(central, &stub.Queryable{Ser: union}, qs, start, start+step, step)
+	ropts := Opts{DisableFallback: true}
+	ropts.LookbackDelta = sym.DurMs(300000)
+	var engines []api.RemoteEngine
+	for _, p := range parts {
+		engines = append(engines, NewLocalEngine(ropts, &stub.Queryable{Ser: p}))
+	}
+	dopts := Opts{DisableFallback: true, LogicalOptimizers: []logicalplan.Optimizer{logicalplan.DistributedExecutionOptimizer{Endpoints: api.NewStaticEndpoints(engines)}}}
+	dopts.LookbackDelta = sym.DurMs(300000)
+	got := verifExecRange(New(dopts), &stub.Queryable{}, qs, start, start+step, step)
+	sym.Assert("C10/real/errors-agree", (got.Err == nil) == (want.Err == nil))
+	gm, _ := got.Value.(promql.Matrix)
+	wm, _ := want.Value.(promql.Matrix)
+	sym.Assert("C10/real/series-count", len(gm) == len(wm))
+	for _, a := range gm {
+		found := false
+		for _, b := range wm {
+			if labels.Equal(a.Metric, b.Metric) {
+				found = true
+				sym.Assert("C10/real/point-count", len(a.Points) == len(b.Points))
+				if len(a.Points) == len(b.Points) {
+					for i := range a.Points {
+						sym.Assert("C10/real/point", sym.And(a.Points[i].T == b.Points[i].T, sym.EqR(a.Points[i].V, b.Points[i].V)))
+					}
+				}
+			}
+		}
+		sym.Assert("C10/real/series", found)
+	}
+	sym.Reached("C10/real/end")
+}
